@@ -10,7 +10,14 @@ GFlow == IOEnv.GEN_FLOW
 Menu == IOEnv.GEN_MENU
 \* GEN_MENU = "sweep": Sign (library, explicit hash, message given) - Tamper (one bit of signature or message) - Verify (library,
 \* the SAME parameter set): the shape whose bit position the harness then sweeps over every bit
-Allowed == /\ Menu = "mid" /\ Len(hist) = 1 => act'.a \in {"Tamper", "Reencode"}
+\* GEN_PW: the password classes exports may use ("all", or one class chosen by the harness from its seed).
+\* GEN_MENU = "pw": Export (private key, with a password) - Parse: every class x everything that may be offered x every
+\* container, exporting party, entry point and parsing party
+GenPw == IF IOEnv.GEN_PW = "all" THEN PwClasses ELSE {IOEnv.GEN_PW}
+Allowed == /\ act'.a = "Export" => act'.pwd \in {"none"} \cup GenPw
+           /\ Menu = "pw" => /\ Len(hist) = 0 => act'.a = "Export" /\ act'.pwd # "none"
+                             /\ Len(hist) = 1 => act'.a = "Parse"
+           /\ Menu = "mid" /\ Len(hist) = 1 => act'.a \in {"Tamper", "Reencode"}
            /\ Menu = "sweep" =>
                 /\ Len(hist) = 0 => act'.a = "Sign" /\ act'.by = "spsdk" /\ ~act'.P.pre /\ act'.P.hash # "default"
                 /\ Len(hist) = 1 => act'.a = "Tamper" /\ act'.what \in {"sigbit", "msgbit"}
